@@ -98,6 +98,11 @@ static std::string check_ciphers(const KV &c) {
         if (nonce_in.size() >= 16) nonce.assign(nonce_in.begin(), nonce_in.begin() + 16);
         else memcpy(nonce.data() + 16 - nonce_in.size(), nonce_in.data(), nonce_in.size());
     }
+    // setting the (same) key again after the nonce must leave the nonce alone: key and nonce are separate parts of the state
+    if (tonum(c, "pos") & 0x200) {
+        bool ok = eff == zero ? o->set_key(nullptr, 0) : o->set_key(k.p, keylen);
+        if (!ok) return where + "setting the same key a second time returned false";
+    }
     Bytes want = c_encrypt(fam, alg, eff, nonce, ov == 1 ? Bytes() : ad, pt);
     Bytes got;
     tape_words_set(TAPE, 4);
